@@ -31,8 +31,8 @@ def gen_curve_expr(rng, depth=1):
     if r < 0.5:
         tr = gen_trace(rng)
         return ["from_trace", tr, rng.randint(2, 6)]
-    if r < 0.62: return ["from_ab", gen_ab(rng, 1, AB_ANALYSIS, True, False), rng.randint(1, 12)]
-    if r < 0.72: return ["from_ab_until", gen_ab(rng, 1, AB_ANALYSIS, True, False), rng.randint(0, 80)]
+    if r < 0.62: return ["from_ab", gen_ab(rng, 1, AB_ANALYSIS, True, True), rng.randint(1, 12)]
+    if r < 0.72: return ["from_ab_until", gen_ab(rng, 1, AB_ANALYSIS, True, True), rng.randint(0, 80)]
     if r < 0.76: return ["of_periodic", rng.randint(1, 30)]
     if r < 0.80: return ["of_prefix", gen_prefix(rng)]
     if r < 0.88: return ["extrapolate", gen_curve_expr(rng, depth - 1), rng.randint(0, 120)]
